@@ -945,6 +945,40 @@ def _foreign_atoms(v, want):
     return sorted(n_ for n_ in names if n_ not in want)
 
 
+# facts whose value is an expression in normal form (the others are statements about the code, which may name a variable)
+EXPRESSION_FACTS = {"leaf.input", "block.size", "blocks.per.piece", "pad.elem", "pad.guard", "pad.count", "root.pad.guard", "root.pad.count", "root.pad.elem"}
+
+
+def _unresolved_locals(f, v, want, accepted, ctx=None):
+    """Identifiers of the extracted text that are local variables of the function the fact was read in and occur in no
+    specification text for this fact: abbreviations the extractor did not reduce (target = ..., amount = ...)."""
+    import re
+    fn = f.fn
+    if fn is None or isinstance(fn, str) or not isinstance(v, str):
+        return []
+    vocab = set(re.findall(r"[A-Za-z_][A-Za-z_0-9]*", " ".join([str(want)] + [str(a) for a in accepted])))
+    # abbreviations only: one definition `name = <arithmetic / attribute / conditional expression>`, never updated in place;
+    # looked for in every function of the module (the normal forms inline helpers, whose locals then show through)
+    stored = set()
+    params = set(fn.params)
+    for g_ in ([x for x in ctx.prog.functions.values() if x.module is fn.module] if ctx is not None else [fn]):
+        count = {}
+        for n in own_nodes(g_.node):
+            if isinstance(n, ast.Name) and isinstance(n.ctx, (ast.Store, ast.Del)):
+                count[n.id] = count.get(n.id, 0) + 1
+        mutated = {n.func.value.id for n in own_nodes(g_.node) if isinstance(n, ast.Call) and isinstance(n.func, ast.Attribute) and isinstance(n.func.value, ast.Name)}
+        for n in own_nodes(g_.node):
+            if isinstance(n, ast.Assign) and len(n.targets) == 1 and isinstance(n.targets[0], ast.Name) and count.get(n.targets[0].id) == 1 and n.targets[0].id not in mutated \
+                    and isinstance(n.value, (ast.Attribute, ast.BinOp, ast.IfExp, ast.Name, ast.Subscript, ast.Compare, ast.BoolOp, ast.UnaryOp)):
+                stored.add(n.targets[0].id)
+    out = []
+    for m in re.finditer(r"(?<![A-Za-z_0-9.])([A-Za-z_][A-Za-z_0-9]*)(?![A-Za-z_0-9(])", v):
+        nm = m.group(1)
+        if nm in stored and nm not in vocab and nm not in params and nm not in out:
+            out.append(nm)
+    return out
+
+
 def judge_facts(ctx, rid, who, facts, spec, accept=None, normalise=None, why="", reduced_attrs=False):
     """Compare extracted facts with a specification table; one obligation per fact."""
     accept = accept or {}
@@ -967,6 +1001,9 @@ def judge_facts(ctx, rid, who, facts, spec, accept=None, normalise=None, why="",
             # the fact mentions a name the extractor could not reduce to the quantities the specification speaks of (an
             # attribute defined in a way it does not follow, a call of a helper): nothing can be said by comparing texts
             ctx.undecided(rid, f.fn, "%s: %s is `%s`, where %s could not be reduced to the quantities of the specification (`%s`)" % (who, k, v, ", ".join(_foreign_atoms(v, want)), want), label)
+        elif k in EXPRESSION_FACTS and _unresolved_locals(f, v, want, accept.get(k, ()), ctx):
+            ctx.undecided(rid, f.fn, "%s: %s is `%s`, where the local name(s) %s could not be reduced to the quantities of the specification (`%s`)" % (
+                who, k, v, ", ".join(_unresolved_locals(f, v, want, accept.get(k, ()), ctx)), want), label)
         else:
             ctx.violated(rid, f.fn, "%s: %s is `%s`; %s requires `%s`" % (who, k, v, why or "the specification", want), label)
     return n
